@@ -52,6 +52,7 @@ func c06gid() int64 {
 }
 
 func init() {
+	sdk.VerifOrder = verifhook.Order // the map ranges rewritten inside cosmos-sdk/types (typed events) ask the same explorer
 	verifhook.Choose = func(site string, n int) []int {
 		v, ok := c06Choosers.Load(c06gid())
 		if !ok {
@@ -172,6 +173,8 @@ func (c *C06) Ops(s *HState) []engine.Op {
 		}
 		ops = append(ops, engine.OpN("Dep", ch), engine.OpN("DepSplit", ch))
 	}
+	// a deposit of a token contract that is not listed: the event reaches the quorum and its handling fails
+	ops = append(ops, engine.OpN("DepBad", "ethereum"))
 	ops = append(ops, engine.OpN("Bond", 3), engine.OpN("FirstVote", 3), engine.OpN("SetPower", 0, 30))
 	if c.Alpha == "hub" {
 		// governance changes the token list (commission of hub@ethereum 1% <-> 5%): later transfers depend on it
@@ -199,10 +202,13 @@ func (c *C06) apply(in *hub.Instance, g *c06Ghost, op engine.Op) (pruned bool) {
 		}
 	case "Send":
 		in.DeliverMsg(mhubtypes.NewMsgSendToExternal(mhubtypes.ChainID(op.S[0]), c.User, hub.HexAddr("r"), sdk.NewInt64Coin(op.S[1], 100000), sdk.NewInt64Coin(op.S[1], 100)))
-	case "Dep", "DepSplit":
+	case "Dep", "DepSplit", "DepBad":
 		ch := op.S[0]
 		g.Ev[ch]++
 		tok := map[string]string{"ethereum": EthHub, "minter": "1"}[ch]
+		if op.Kind == "DepBad" {
+			tok = hub.HexAddr("c06-unlisted-token")
+		}
 		for i, v := range c.Vals[:3] {
 			amt := int64(1000)
 			if op.Kind == "DepSplit" && i == 2 {
